@@ -16,13 +16,22 @@ EXPLANATION = ("H1 panic-source cone over the MIR call graph (resolved callees, 
                "leaves the driver loop with Err (dropping all reply senders); H5 a frame that has arrived completely is delivered or rejected, "
                "never awaited: the frame decoder's path rules (shared with C06 G1 / G2) and, in the default and the gssapi configuration, "
                "Decoder::decode on a connection without a security layer answers what the frame decoder answers - a test of its own may say "
-               "Ok(None) only for buffers too short to hold any complete element (rules/wrapper.py).  Not decided: memory exhaustion on huge announced lengths; "
+               "Ok(None) only for buffers too short to hold any complete element (rules/wrapper.py); H7 (C04 L6) the one-operation driver hands the connection back, and so stops decoding, only after the pending operation was answered.  Not decided: memory exhaustion on huge announced lengths; "
                "panics inside external crates beyond the may-panic table.")
 TRUSTED = ['the frozen may-panic classification of external callees (listed in the evidence)', 'reviewed triage table rules/triage/C11.tsv']
 UNDECIDED = ['allocation size / memory exhaustion', 'panics inside external crates not marked #[track_caller] and not in the may-panic table',
              'an edit that removes the guard of a source triaged "infeasible" is not seen by the cone rule']
 ASSUMPTIONS = ['request-side code reached only through Encoder::encode is driven by the client, not the peer, and is outside this cone']
-SHARED = [('C01', ('R1.envelope-path', 'R1.decoder'), 'H6.guards-of-reviewed-sources')]      # two panic sources are reviewed as infeasible because the frame decoder guards them (only a constructed [0] reaches the control-list decoder; only Tag::StructureTag leaves the decoder): those guards are re-decided on every run
+SHARED = [('C01', ('R1.envelope-path', 'R1.decoder'), 'H6.guards-of-reviewed-sources'),
+          # C11's clause "input that is not a well-formed LDAPMessage envelope ends the connection with a decoding error that every
+          # pending operation observes [nor does the driver wait forever]": H4 decides that a decode error met by the driver loop ends
+          # it with Err, which drops every reply sender.  That presupposes that the driver is still reading when the bad bytes arrive:
+          # the one-operation driver (StartTLS set-up) stops reading and hands the connection - routing maps and all - back to a caller
+          # that keeps it; when it does so before the pending operation was answered (after a well-formed message nobody waits for),
+          # whatever follows on the wire is never decoded, the decoding error is never raised and the pending operation neither
+          # observes it nor ends.  C04 L6 decides, on the paths of the arms, that the connection is handed back only after a reply was
+          # delivered to the operation registered under the decoded ID
+          ('C04', ('L6.',), 'H7.driver-reads-on-until-the-pending-operation-is-answered')]      # H6: two panic sources are reviewed as infeasible because the frame decoder guards them (only a constructed [0] reaches the control-list decoder; only Tag::StructureTag leaves the decoder): those guards are re-decided on every run
 
 QUICK_CONFIGS = ['default', 'gssapi']      # the decoder has a second form with the gssapi feature (the SASL token layer around the frame decoder): a frame that is awaited forever there wedges the connection just the same
 
